@@ -121,7 +121,8 @@ def event_coq(e, gt):
 
 def expected_calls(S, evs, gt):
     """the property, evaluated on the event log of an independent executor"""
-    out = [f"traps {n} {gt.show(g)}" for n, g in S.layout.static_traps.items()]
+    # the static trap zones as the harness DECLARED them (not read back from the layout under test, where it built the layout itself)
+    out = [f"traps {n} {gt.show(S.layout.static_traps[n])}" for n in tweezer_prog.declared_static(S)]
     for e in evs:
         k = e[0]
         if k == "play":
@@ -166,12 +167,14 @@ def thin_spec():
     from bloqade.geometry.dialects.grid import Grid
     from bloqade.shuttle.arch import ArchSpec, Layout
     S = tweezer_prog.harness_spec()
-    st = dict(S.layout.static_traps)
+    st = {n: S.layout.static_traps[n] for n in tweezer_prog.declared_static(S)}
     st["row"] = Grid.from_positions([30.0, 32.0, 34.0, 36.0, 38.0], [0.0])
     st["col"] = Grid.from_positions([44.0], [1.0, 2.5, 4.0, 5.5])
     st["dot"] = Grid.from_positions([50.0], [7.0])
     lay = Layout(static_traps=st, fillable={"traps", "row"}, has_cz={"traps"}, has_local={"aux", "row", "col", "dot"},
                  special_grid=dict(S.layout.special_grid))
+    tweezer_prog.DECLARED_STATIC[id(lay)] = ["traps", "aux", "row", "col", "dot"]
+    tweezer_prog._KEEP.append(lay)
     return ArchSpec(layout=lay, float_constants=dict(S.float_constants), int_constants=dict(S.int_constants))
 
 
@@ -327,7 +330,7 @@ def judge_case(ctx, m, args, S, rep, cases, key, native=None):
     if st != "ok":
         ctx.fail({"kind": "visualizer-raises", "error": (err or "")[:60]}, rep, f"PathVisualizer raised {err} on a program the event executor runs")
         return
-    ntr = len(S.layout.static_traps)
+    ntr = len(tweezer_prog.declared_static(S))
     if calls != want:
         k = next((j for j in range(min(len(calls), len(want))) if calls[j] != want[j]), min(len(calls), len(want)))
         ctx.fail({"kind": "calls-differ", "at": "traps" if k < ntr else "events",
@@ -347,7 +350,7 @@ def judge_case(ctx, m, args, S, rep, cases, key, native=None):
     ctx.hist("outcome", "replayed")
     if len(calls) - ntr >= 2:
         ctx.nt(key)
-    traps = clist([f"({cstr(n)}, {cstr(gt.show(g))})" for n, g in S.layout.static_traps.items()])
+    traps = clist([f"({cstr(n)}, {cstr(gt.show(S.layout.static_traps[n]))})" for n in tweezer_prog.declared_static(S)])
     cases.append((f"({traps}, {clist([event_coq(e, gt) for e in evs])})", " | ".join(calls), rep))
 
 
